@@ -261,6 +261,10 @@ func (packet *Packet) updatePacketSize(newSize int) {
 
 // replaceQuery replace query in payload with new and update header with new size
 func (packet *Packet) replaceQuery(newQuery string) {
+	if len(packet.data) == 0 {
+		// no command byte: not a query packet, nothing to replace
+		return
+	}
 	if len(newQuery) > len(packet.data[1:]) {
 		// first byte CMD + new query
 		packet.data = append(packet.data[:1], []byte(newQuery)...)
